@@ -1,2 +1,4 @@
 pub mod bits;
+pub mod dsv;
 pub mod json;
+pub mod text;
